@@ -543,10 +543,10 @@ def check_ltan(case, t):
             t.fail("ltan/raises", "LTAN and RAAN conversions", case, "a value", repr(ex))
             return
         if not (0 <= lt < 86400):
-            t.fail("ltan/range", "LTAN is a time of day", case, "[0, 86400)", lt)
+            t.fail("ltan/range" + ("/extra-turns" if case.get("turns") else ""), "LTAN is a time of day", case, "[0, 86400)", lt)
         err = abs((back - raan + math.pi) % two_pi - math.pi)
-        if not t.margin(f"raan -> ltan -> raan ({ty}) [rad]", err, 2e-15 * two_pi * 8, case):
-            t.fail("ltan/raan-roundtrip", "ltan2raan inverts raan2ltan (mod 2 pi)", case, raan, back)
+        if not t.margin(f"raan -> ltan -> raan ({ty}) [rad]", err, 2e-15 * two_pi * 8 * (1 + abs(case.get("turns", 0))), case):
+            t.fail("ltan/raan-roundtrip" + ("/extra-turns" if case.get("turns") else ""), "ltan2raan inverts raan2ltan (mod 2 pi)", case, raan, back)
         t.outcome(("ltan", int(lt // 3600)))
     else:
         lt = case["ltan"]
@@ -560,7 +560,7 @@ def check_ltan(case, t):
         if not (0 <= ra < two_pi):
             t.fail("ltan/raan-range", "RAAN in [0, 2 pi)", case, "[0, 2pi)", ra)
         err = abs((back - lt + 43200) % 86400 - 43200)
-        if not t.margin(f"ltan -> raan -> ltan ({ty}) [s]", err, 2e-15 * 86400 * 8, case):
+        if not t.margin(f"ltan -> raan -> ltan ({ty}) [s]", err, 2e-15 * 86400 * 8 * (1 + abs(case.get("turns", 0))), case):
             t.fail("ltan/ltan-roundtrip", "raan2ltan inverts ltan2raan (mod 86400 s)", case, lt, back)
         t.outcome(("raan", int(ra * 4)))
 
@@ -873,6 +873,12 @@ def cases(tier):
                 ltan = 0.0 if k == 0 else (86399.999999 if k == n - 1 else k * 86400.0 / n + 0.5)
                 lt.append(dict(kind="ltan", mjd=mjd, sec=sec, type=ty, raan=raan))
                 lt.append(dict(kind="ltan", mjd=mjd, sec=sec, type=ty, ltan=ltan))
+                if k % 4 == 1:
+                    # the same node / local time written with whole extra turns / days (a negative node angle, an angle
+                    # accumulated over several revolutions): still one node, one time of day
+                    for m in (-3, -2, -1, 1, 2):
+                        lt.append(dict(kind="ltan", mjd=mjd, sec=sec, type=ty, raan=raan + 2 * math.pi * m, turns=m))
+                        lt.append(dict(kind="ltan", mjd=mjd, sec=sec, type=ty, ltan=ltan + 86400.0 * m, turns=m))
     no = 6 if q else 12
     for mjd, sec in ltan_dates(n)[:: (4 if q else 8)]:
         for oi in [k for k in range(len(BETA_ORBITS)) if 0.3 < BETA_ORBITS[k][2] < math.pi - 0.1][:no]:
